@@ -218,7 +218,7 @@ func TestC18(t *testing.T) {
 			})
 		}
 	}
-	rapidCheck(t, "supported", tierN(1000, 20000), func(rt *rapid.T) {
+	rapidCheck(t, "supported", tierN(3000, 20000), func(rt *rapid.T) {
 		typ := rapid.SampledFrom(gateTypes).Draw(rt, "type")
 		if typ == "Poseidon" && rapid.IntRange(0, 3).Draw(rt, "thin") != 0 {
 			typ = rapid.SampledFrom(gateTypes[4:]).Draw(rt, "type2")
@@ -227,7 +227,7 @@ func TestC18(t *testing.T) {
 		w, c, pi := genRowRandom(rt, gateRowWires, gateRowConsts)
 		s.exec(rt, "supported", c18Sup{g, w, c, pi}, "supported/"+typ)
 	})
-	rapidCheck(t, "unsupported", tierN(1000, 20000), func(rt *rapid.T) {
+	rapidCheck(t, "unsupported", tierN(3000, 20000), func(rt *rapid.T) {
 		id := genUnsupportedId().Draw(rt, "id")
 		s.exec(rt, "unsupported", id, "unsupported/"+strings.SplitN(id, " ", 2)[0])
 	})
